@@ -91,6 +91,10 @@ def first_diff(a, b):
 
 
 SKIPPED = {}
+# deep RECURSIVE operators over the heap (Load / Reach / ImplH over lazily
+# evaluated functions): with the default thread stack TLC sporadically dies
+# with a StackOverflowError before the JIT has compiled the evaluator
+JVM = ["-Xss256m"]
 
 
 class Vec:
@@ -148,7 +152,7 @@ def walker_events(node, seed, methods=None, origin="walk", maxcells=None,
 
 
 def check_regression(ctx, module, cfg, expect, what, sens):
-    r = ctx.tlc(module, cfg, must_pass=False, count=False,
+    r = ctx.tlc(module, cfg, must_pass=False, count=False, jvm=JVM,
                 label="regression config: " + what)
     if r.violated not in expect:
         raise vlib.MachineryError(
@@ -182,9 +186,9 @@ def run(ctx):
                      ("ImplSymmetric", "ImplEqImpliesHash"),
                      "NocaseDict.__eq__ looks keys up with other.get(key)",
                      sens)
-    ctx.tlc("CimEqHeap", "CimEqHeap.cfg", coverage=False,
+    ctx.tlc("CimEqHeap", jvm=JVM, cfg="CimEqHeap.cfg", coverage=False,
             label="heap model: copy()/copy.copy/deepcopy/pickle + <=2 "
-            "mutations, Independence + Tight for 19 object graphs")
+            "mutations, Independence + Tight for 27 object graphs")
     check_regression(ctx, "CimEqHeap", "CimEqHeapRegDict.cfg",
                      ("Independence",), "copy() shares the child dictionary",
                      sens)
@@ -200,7 +204,7 @@ def run(ctx):
                      "NocaseDict.copy() re-inserts the items through the "
                      "constructor before the unnamed key is allowed: raises "
                      "for a dictionary holding the key None", sens)
-    ctx.tlc("CimEqHeap",
+    ctx.tlc("CimEqHeap", jvm=JVM, cfg=
             "CimEqHeapHist.cfg" if quick else "CimEqHeapHistBig.cfg",
             coverage=False,
             label="heap model, histories: hash() / NocaseDict mutators / "
@@ -217,6 +221,12 @@ def run(ctx):
                      "hash value cached in NocaseDict, dropped by all its "
                      "mutators: stale after an in-place change of a contained "
                      "object", sens)
+    check_regression(ctx, "CimEqHeap", "CimEqHeapRegLazy.cfg",
+                     ("HashLawful",),
+                     "__hash__ reads the private, lazily initialised "
+                     "dictionary slot instead of the public attribute: None "
+                     "before, empty dictionary after the first read-only "
+                     "observation", sens)
     ctx.extra["sensitivity"] = sens
 
     # ---- 2. abstract inputs from TLC --------------------------------------
@@ -234,20 +244,34 @@ def run(ctx):
     nobj = sum(len(x) for x in objs.values())
     if nobj == 0 or not near:
         raise vlib.MachineryError("CimEqGen printed no universe")
-    rb = ctx.tlc("CimEqHeap",
+    rb = ctx.tlc("CimEqHeap", jvm=JVM, cfg=
                  "CimEqHeapEmit1.cfg" if quick else "CimEqHeapEmit2.cfg",
                  workers=1, count=False,
                  label="behaviour emission: every copy/mutate behaviour")
     behs = [vlib.unset(v[1]) for v in rb.printed("BEH")]
     if not behs:
         raise vlib.MachineryError("CimEqHeap printed no behaviours")
-    rh = ctx.tlc("CimEqHeap", "CimEqHeapHistEmit2.cfg",
+    rh = ctx.tlc("CimEqHeap", jvm=JVM, cfg="CimEqHeapHistEmit2.cfg",
                  workers=1, count=False,
                  label="history emission: every history after which a never-"
                  "dropped hash cache would be stale")
     hbehs = [vlib.unset(v[1]) for v in rh.printed("BEH")]
     if not hbehs:
         raise vlib.MachineryError("CimEqHeap printed no histories")
+    rl = ctx.tlc("CimEqHeap", jvm=JVM, cfg=
+                 "CimEqHeapLazyEmit1.cfg" if quick else
+                 "CimEqHeapLazyEmit2.cfg",
+                 workers=1, count=False,
+                 label="history emission: hash() calls and one read-only "
+                 "observation (or clear()) after which a hash of the raw "
+                 "lazily initialised slots differs from that of a fresh "
+                 "equal object")
+    lbehs = [vlib.unset(v[1]) for v in rl.printed("BEH")]
+    if not lbehs:
+        raise vlib.MachineryError("CimEqHeap printed no observation "
+                                  "histories")
+    ctx.extra["tlc_heap_observation_histories"] = len(lbehs)
+    hbehs += lbehs
     ctx.extra["tlc_heap_histories"] = len(hbehs)
     ctx.extra["universe_objects"] = {k: len(v) for k, v in objs.items()}
     ctx.extra["tlc_near_pairs"] = len(near)
@@ -339,7 +363,9 @@ def run(ctx):
             if chosen is None:
                 chosen = (i, seed, proto)
         i, seed, proto = chosen
-        add_hist_walk(objs[k][i], "universe:shape:history")
+        if not any(str(x).startswith("holds ") for x in _shape) and \
+                k != "DateTime":
+            add_hist_walk(objs[k][i], "universe:shape:history")
         if (k, i) in walked and \
                 (not hasattr(proto, "copy") or H.ctor_stable(proto)):
             continue
@@ -462,8 +488,10 @@ def run(ctx):
                     "children in both orders, <=1 block deviating from 2 "
                     "base assignments; + special-fold names n6/n6'/n6s one "
                     "at a time, empty arrays, None-valued items",
-        "heap": "MaxRef=60, MaxMut=%d, 19 root graphs; histories of <=%d "
-                "steps" % (1 if quick else 2, 2 if quick else 3)}
+        "heap": "MaxRef=60, MaxMut=%d, 27 root graphs (8 with empty, "
+                "lazily initialised dictionary slots); histories of <=%d "
+                "steps incl. read-only observations" %
+                (1 if quick else 2, 2 if quick else 3)}
     for v in (pairs[:1] + pairs[len(pairs) // 2:len(pairs) // 2 + 1] +
               triples[:1] + copies[:1] + copies[-1:]):
         ctx.sample({"origin": v.origin, "event": slim(v.event)})
@@ -487,6 +515,10 @@ def run(ctx):
         "standalone NocaseDict objects are of the keybindings flavour "
         "(allow_unnamed_keys = True); a dictionary that rejects the unnamed "
         "key is never compared with one that holds it",
+        "hash values are taken before the objects are compared, tested for "
+        "membership or projected; read-only observations (getters, repr, "
+        "str, tocimxml, tomof, ==, copies) are steps of a history and must "
+        "not change hash or ==",
         "histories: the object is compared with an object freshly built "
         "from its projected public attributes; histories whose steps have no "
         "counterpart on the concrete object are skipped (counted)",
@@ -521,7 +553,7 @@ def describe(vec, clauses):
     e = vec.event
     if e["ev"] == "pair":
         obs = {k: e[k] for k in ("eab", "eba", "nab", "nba", "eaa", "ebb",
-                                 "h", "inset", "indict")}
+                                 "h", "hs", "inset", "indict")}
         return "%s pair (%s) differing in %s: observed %s violates %s" % (
             e["a"]["k"], vec.origin, first_diff(e["a"], e["b"]), obs,
             ", ".join(clauses))
@@ -531,7 +563,7 @@ def describe(vec, clauses):
             e["a"]["k"], vec.origin, obs, ", ".join(clauses))
     if e["ev"] == "hist":
         obs = {k: e[k] for k in ("eab", "eba", "nab", "nba", "eaa", "ebb",
-                                 "h", "inset", "indict")}
+                                 "h", "hs", "inset", "indict")}
         hist = "; ".join("%s at %s" % (a["what"],
                                        "/".join(a["steps"]) or "(self)")
                          for a in e["acts"])
@@ -551,7 +583,7 @@ def judge(ctx, vecs, what):
         return
     verdicts = ctx.validate_traces(
         "CimEqTrace", "CimEqTrace.cfg", [[v.event] for v in vecs],
-        label="trace-validate CimEqTrace (%s vectors)" % what, chunk=3000)
+        label="trace-validate CimEqTrace (%s vectors)" % what, chunk=6000)
     for v, vd in zip(vecs, verdicts):
         if vd["ok"]:
             continue
